@@ -42,6 +42,10 @@ claimed = {
          "Every history of 6 (thorough 7) operations over {process, read, load(t)} for a pool of 10 interacting texts (cross-module typedef/identity/grouping/augment/deviation, a module with semantic errors, module + submodule, syntax error, unknown statement after typedefs and identities were built, missing mandatory substatement, re-load, different text for a loaded module name) - 249 k histories quick - is executed on one real Modules value. Each load's verdict is predicted; after every process the canonical dump (all exported attributes incl. positions) or the error list must equal that of a fresh set given the successfully loaded texts once each in the same order and processed once.",
          "Trusted: the dump (exported API only) and the batch run as reference. Texts declare one module each.",
          "DESIGN.md §3 C18"),
+ "C13": ("exhaustive enumeration of load sequences, directory layouts and module partitions on the real code",
+         "rev: every load sequence of <= 3 (4) of 7 header variants of one module name (revision lists {}, {r1}, {r2}, {r2,r1}, {r1,r2}, {r3,r2}, a second text at r1), as modules and as submodules, with repeats: load verdicts, registry keys and the binding of dated/undated imports and includes against a reference, plus equality of the outcome across all orders of each multiset; file: every subset of 6 (8-11) candidate and near-miss file names in each of two search-path directories and of 3 names in the current directory, as real files, x 3 requests, against a reference chooser; split: 9 body items in every partition into main module + 2 submodules x 3 cross-include patterns x 3 load orders, the main module's dump must equal the unsplit module's.",
+         "Trusted: the reference registry/chooser; dump. Excluded: bindings of a dated import whose revision is not loaded; partitions needing visibility of the owner's definitions inside a submodule; symlinks/permissions. One known finding class (known_findings.json).",
+         "DESIGN.md §3 C13"),
 }
 pending_reason = "check not built yet in this session (see DESIGN.md §12 build order); it will be claimed once its harness exists and is quiet on the unchanged tree"
 not_applicable_reasons = {}
